@@ -21,9 +21,10 @@ func init() { cmds["fsaudit"] = cmdFsAudit }
 // the position of the acknowledgement.
 func cmdFsAudit(args []string) int {
 	fs := flag.NewFlagSet("fsaudit", flag.ExitOnError)
-	dir := fs.String("dir", "", "data directory (fresh)")
+	dir := fs.String("dir", "", "data directory (fresh for phase 1)")
 	seed := fs.Int64("seed", 1, "")
-	n := fs.Int("n", 40, "commits")
+	n := fs.Int("n", 20, "commits in this phase")
+	phase := fs.Int("phase", 1, "1: open a fresh directory, commit, die without Close; 2: reopen (recovery), commit, Close")
 	_ = fs.Parse(args)
 	null, err := os.OpenFile("/dev/null", os.O_WRONLY, 0)
 	if err != nil {
@@ -34,6 +35,7 @@ func cmdFsAudit(args []string) int {
 	r := rand.New(rand.NewSource(mix(*seed, 7)))
 	cfg := CfgJSON{SkipListMaxLevel: 4, SkipListP: 0.5, MemtableByteThreshold: pick(r, 60, 150, 400),
 		ImmutableBuffer: pick(r, 0, 1, 2), DataBlockByteThreshold: pick(r, 40, 4096), L0TargetNum: pick(r, 1, 2), LevelRatio: pick(r, 1, 2)}
+	r = rand.New(rand.NewSource(mix(*seed, 70+*phase)))
 	km := kvmap.New("plain", 4)
 	tr := &rec.Trace{}
 	mark("RECOVERY")
@@ -47,24 +49,16 @@ func cmdFsAudit(args []string) int {
 	for i := 1; i <= *n; i++ {
 		c.Begin(true)
 		for j := 0; j < 1+r.Intn(3); j++ {
-			c.Put(1+r.Intn(4), i*10+j)
+			c.Put(1+r.Intn(4), (*phase*1000+i)*10+j)
 		}
 		if c.Commit() == "ok" {
-			mark(fmt.Sprintf("ACK %d", i))
+			mark(fmt.Sprintf("ACK %d", *phase*1000+i))
 		}
-		if i == *n/2 {
-			// abandon the handle without Close (wal files stay), reopen: recovery re-logs and deletes them
-			time.Sleep(20 * time.Millisecond)
-			mark("ABANDON")
-			mark("RECOVERY")
-			st, err = dbx.Open(*dir, cfg.Config(), tr, km, false)
-			if err != nil {
-				fmt.Fprintln(os.Stderr, err)
-				return 2
-			}
-			mark("OPEN")
-			c = st.Sess(1)
-		}
+	}
+	if *phase == 1 {
+		// die without Close: the wal files of the active and the queued memtables stay behind
+		mark("DIE")
+		os.Exit(0)
 	}
 	waitIdle(st, 5*time.Second)
 	st.Close()
